@@ -142,7 +142,7 @@ Lemma nn_spec v : nn v -> convert_number v = convert_unless_string v.
 Proof.
   intros H. unfold convert_unless_string. destruct (is_go_string v) eqn:E; [|reflexivity].
   destruct v as [| | | |[|] s| | | | | | | |]; try discriminate E. cbn in H.
-  unfold convert_number, convert_number_check.
+  unfold convert_number, convert_number_check, convert_number_check_base.
   destruct (is_empty_value (value_of (VStr false s))); cbn; rewrite H; reflexivity.
 Qed.
 
